@@ -12,17 +12,18 @@
    mode (C07).
    Known10 = finding classes with witnesses below (add_to_file with a removed file; the root loses the last file of its
    own set; a moved element keeps its local sets).  Unowned = remove_file of a file whose own model link names another
-   model (not reachable through the API, excluded).  Pending10 = OpMove, OpMoveAt and OpRemoveFile of the LAST file:
-   not proved, covered by the correspondence and the oracle only.
+   model (not reachable through the API, excluded).  Pending10 = OpMove, OpMoveAt (and OpRemoveFile of the last file
+   for table sets whose root type is a named type: none exists): not proved, covered by the correspondence and the
+   oracle only.
    [U] C10_eff_is_file_membership, C10_eff_executable, C10_eff_unique, C10_filter_is_eff, C10_ser_visits,
-       C10_projection_closed, C10_nothing_lost, C10_add_to_file, C10_create_file, C10_remove_from_file,
+       C10_projection_closed, C10_nothing_lost, C10_add_to_file, C10_create_file, C10_remove_from_file, C10_remove_last_file,
        C10_frame_transfer (every operation that never writes a file set)
    [P] C10_inv_partial, C10_history_partial, C10_reachable_partial, C10_remove_file_partial + C10_remove_file_keeps (another file
        remains; that every element of the removed file alone is deleted is checked by the oracle only), C10_self_contained (reduced to the XML layer)
    [F] C10_add_foreign_refuted, C10_root_last_refuted, C10_root_last_remove_file_refuted, C10_move_local_refuted
        (vm_compute on the tiny table set of Tree/Files.v). *)
 From AV Require Import Base.Bytes Base.Outcome Hash.HashModel Tree.Heap Tree.Ops Tree.Script Tree.Serialize Tree.Inv.
-From AV Require Import Tree.Files Tree.FilesProofsProj Tree.FilesProofsFrame Tree.FilesProofsAdd Tree.FilesProofsRemove Tree.FilesProofsExact
+From AV Require Import Tree.Files Tree.FilesProofsProj Tree.FilesProofsFrame Tree.FilesProofsAdd Tree.FilesProofsRemove Tree.FilesProofsExact Tree.FilesProofsLast
   Tree.FilesProofsInv Tree.FilesProofsHist Tree.FilesProofsTop.
 Open Scope list_scope.
 Open Scope N_scope.
@@ -113,10 +114,17 @@ Theorem C10_remove_file_keeps :
     Reach w' (m_root x) i /\ forall h, h <> f -> (Attributed w i h <-> Attributed w' i h).
 Proof. exact remove_file_keeps. Qed.
 
+(* remove_file of the last file: the model is empty again *)
+Theorem C10_remove_last_file :
+  forall (T : tables) (m f : N) (w : world) (r : out unit) (w' : world),
+  TreeInv w -> FilesInv T w -> last_file w (OpRemoveFile m f) = true -> root_named T w (OpRemoveFile m f) = false ->
+  m_remove_file T m f w = Val (r, w') -> FilesInv T w'.
+Proof. exact remove_file_last_inv. Qed.
+
 Theorem C10_inv_partial :
   forall (T : tables) (tab_el tab_en : nametab) (check_fn : N -> list N -> res bool) (LATEST : N)
          (root_attrs : list (N * cdata)) (o : op) (w : world) (r : out value) (w' : world),
-  TreeInv w -> FilesInv T w -> Pending10 w o = false -> Known10 w o = false -> Unowned w o = false ->
+  TreeInv w -> FilesInv T w -> Pending10 T w o = false -> Known10 w o = false -> Unowned w o = false ->
   run_op T tab_el tab_en check_fn LATEST root_attrs o w = Val (r, w') -> FilesInv T w'.
 Proof. exact inv_step_all. Qed.
 
